@@ -1,6 +1,10 @@
 package harness
 
-import "fmt"
+import (
+	"fmt"
+
+	"github.com/onflow/atree"
+)
 
 func init() {
 	// ------------------------------------------------------------------ C03: durable commits, no uncommitted leakage
@@ -80,7 +84,12 @@ func init() {
 		Or: func(*Case) Oracles {
 			return Oracles{CmpEvery: 1, CheckHandles: true, Verify: true, Health: true, Inline: true, Sizes: true, FreshAtCommit: true, Isolation: true}
 		},
-		Post: endCommitFresh,
+		Post: func(e *Engine, cs *Case) error {
+			if err := endCommitFresh(e, cs); err != nil {
+				return err
+			}
+			return e.staleHandleAfterReattach()
+		},
 		Non: func(s *CaseStats) bool {
 			return s.Has("stale_handle_on_detached") && s.Has("isolation_checked") && s.Has("detached_with_live_handle")
 		},
@@ -120,4 +129,87 @@ func init() {
 		},
 		Rule: "case contains a collision-limit refusal, an external collision group with later removals, or an inline collision group",
 	})
+}
+
+
+// staleHandleAfterReattach (terminal scenario of C11): a detached container whose old handle is still
+// alive is attached elsewhere through ANOTHER handle (so that it is inlined there), then mutated through
+// the old handle.  Using two handles on one container breaks the handle discipline for the new parent
+// (which is therefore not inspected any more), but the FORMER parent must stay byte-identical.
+func (e *Engine) staleHandleAfterReattach() error {
+	for _, d := range e.detachedRoots() {
+		if !d.HasHandle() || d.Former == nil || d.Count() > 3 {
+			continue
+		}
+		former := rootOf(d.Former)
+		stillLive := false
+		for _, r := range e.Roots {
+			if r == former {
+				stillLive = true
+			}
+		}
+		if !stillLive || former == d {
+			continue
+		}
+		// a second handle, obtained by reloading the detached value by its identifier
+		var v2 atree.Value
+		var err error
+		if d.IsMap {
+			v2, err = atree.NewMapWithRootID(e.St, d.Root, atree.NewDefaultDigesterBuilder())
+		} else {
+			v2, err = atree.NewArrayWithRootID(e.St, d.Root)
+		}
+		if err != nil {
+			return e.viol("reloading detached container %s failed: %v", d.Root, err)
+		}
+		q, err := atree.NewArray(e.St, d.Addr, TI{N: 9})
+		if err != nil {
+			return e.viol("NewArray failed: %v", err)
+		}
+		if err := q.Append(v2); err != nil {
+			return e.viol("attaching a reloaded detached container to a new array failed: %v", err)
+		}
+		before, err := e.encodeTrees(d)
+		if err != nil {
+			return err
+		}
+		// mutate through the OLD handle (errors are not judged: only the former parent is)
+		if d.IsMap {
+			if !d.TI.Comp {
+				_, _ = d.HM.Set(e.CB.Compare, e.CB.HashInput, U64(424242), U64(1))
+			}
+		} else {
+			_ = d.HA.Append(U64(1))
+		}
+		e.removeRoot(d) // d and q are outside the handle discipline from here on
+		w := newWalk(e.St)
+		if _, err := w.visit(former.Root, nil, false); err != nil {
+			return e.viol("former parent after a stale-handle mutation of its re-attached former child: %v", err)
+		}
+		if err := w.encodeAll(); err != nil {
+			return e.viol("%v", err)
+		}
+		for _, si := range w.Order {
+			if b, ok := before[si.ID]; !ok || string(b) != string(si.Enc) {
+				return e.viol("mutating a detached container (re-attached elsewhere through another handle) through its old handle changed slab %s of its former parent", si.ID)
+			}
+		}
+		if err := cmpValueOfRoot(e, former); err != nil {
+			return err
+		}
+		e.Stats.label("stale_handle_after_reattach_elsewhere")
+		return nil // one such scenario per case: the storage is outside the discipline now
+	}
+	return nil
+}
+
+func cmpValueOfRoot(e *Engine, r *Node) error {
+	v, err := e.rootValue(r)
+	if err != nil {
+		return err
+	}
+	if err := cmpValue(v, r, fmt.Sprintf("former parent root#%d", r.ID), CmpOpts{CheckVID: true}); err != nil {
+		return e.viol("%v", err)
+	}
+	return nil
 }
